@@ -125,13 +125,24 @@ def pools(isa, rnd, ngp=3, nvec=2):
             rnd.sample(["vec:%d" % i for i in (0, 1, 2, 7, 31)], nvec))
 
 
-def gen(isa, rnd, gp, vec):
+def multi_form_stems(isa):
+    """mnemonic stems the vocabulary lists with more than one operand form (imul r,r / imul $i,r,r; shl $i,r / shl %cl,r)"""
+    by = {}
+    for e in (X86 if isa == "x86" else A64):
+        mn = e[0].split()[0]
+        stem = mn[:-1] if (isa == "x86" and mn[-1] in "qlwb" and not mn.startswith("v")) else mn
+        form = (len(e[1]), "$" in e[0] or "#" in e[0], "%cl" in e[0])
+        by.setdefault(stem, {}).setdefault(form, []).append(e)
+    return {k: [x for v in forms.values() for x in v] for k, forms in by.items() if len(forms) > 1}
+
+
+def gen(isa, rnd, gp, vec, entry=None):
     """One vocabulary instruction over the given family pools -> abstract instruction dict."""
-    if isa == "x86" and rnd.random() < 0.08:
+    if entry is None and isa == "x86" and rnd.random() < 0.08:
         text, rd, wr = rnd.choice(X86_IMPLICIT)
         return {"text": text, "R": sorted(rd), "W": sorted(wr), "WB": [], "FR": [], "FW": [], "lat": 0, "latwo": 0,
                 "lds": False, "ST": [], "LD": [], "CH": [], "shape": text, "flags_known": True, "db_flags_incomplete": False}
-    entry = rnd.choice(X86 if isa == "x86" else A64)
+    entry = entry or rnd.choice(X86 if isa == "x86" else A64)
     tmpl, roles, classes, fr, fw, zero = entry[:6]
     also_read = list(entry[6]) if len(entry) > 6 else []
     fams = []
